@@ -78,14 +78,18 @@ fn loop_progs(n: u64) -> Vec<(String, String)> {
         ("structs".into(), format!("type Nd = {{ name: string, items: array<string> }}\nvar keep = Nd(\"\", [])\nvar i = 0\nwhile i < {n} {{\n  let nd = Nd(\"n\" .. i, [\"x\" .. i])\n  nd.items.push(nd.name)\n  keep = nd\n  i = i + 1\n}}\nprintln(keep.name)\n")),
         ("closures".into(), format!("var keep = () -> \"\"\nvar i = 0\nwhile i < {n} {{\n  let s = \"c\" .. i\n  let f = () -> s .. \"!\"\n  keep = f\n  i = i + 1\n}}\nprintln(keep())\n")),
         ("window".into(), format!("let win: array<string> = []\nvar i = 0\nwhile i < {n} {{\n  win.push(\"w\" .. i)\n  if win.len() > 8 {{\n    let d = win.remove(0)\n  }}\n  i = i + 1\n}}\nprintln(win.len())\n")),
+        ("worklist".into(), format!("let buf: array<int> = []\nvar r = 0\nwhile r < {n} / 20 + 1 {{\n  var i = 0\n  while i < 40 {{\n    buf.push(i)\n    i = i + 1\n  }}\n  let dead = [\"d\" .. r, \"e\" .. r]\n  buf.clear()\n  r = r + 1\n}}\nprintln(buf.len())\n")),
+        ("drain".into(), format!("let q: array<string> = []\nvar r = 0\nwhile r < {n} / 10 + 1 {{\n  var i = 0\n  while i < 20 {{\n    q.push(\"q\" .. i)\n    i = i + 1\n  }}\n  while q.len() > 0 {{\n    let x = q.pop()\n  }}\n  r = r + 1\n}}\nprintln(q.len())\n")),
         ("enums".into(), format!("type Tr = | Leaf(string) | Pair(string, string)\nvar keep = Tr.Leaf(\"\")\nvar i = 0\nwhile i < {n} {{\n  keep = Tr.Pair(\"l\" .. i, \"r\" .. i)\n  i = i + 1\n}}\nmatch keep {{ .Leaf(x) -> println(x), .Pair(a, b) -> println(a .. b) }}\n")),
     ]
 }
 
-/// run under the real pacing, one step at a time, recording the peak heap of the main thread
+/// run under the real pacing, one step at a time, recording the peak heap of the main thread:
+/// (max of the VM's own heap_size, max objects, max of real live bytes above the level at runtime creation)
 fn peak_heap(src: &str) -> Option<(usize, usize, String)> {
     let program = compile_bytecode("main.abra", provider(src, &[])).ok()?;
     let mut rt = Runtime::new(program);
+    let base = live();
     let mut out = String::new();
     let (mut pb, mut po) = (0usize, 0usize);
     let mut steps = 0u64;
@@ -100,7 +104,8 @@ fn peak_heap(src: &str) -> Option<(usize, usize, String)> {
         }
         if let Some(t) = rt.iter_threads_mut().next() {
             let (b, o) = verif_gc::heap_bytes(t);
-            pb = pb.max(b);
+            let real = (live() - base).max(0) as usize;
+            pb = pb.max(b).max(real);
             po = po.max(o);
         }
         if steps > 50_000_000 {
@@ -143,7 +148,8 @@ fn main() {
     let small = loop_progs(n1);
     let big = loop_progs(n2);
     let all: Vec<(String, String)> = small.iter().chain(big.iter()).cloned().collect();
-    let peaks = par_map(&all, |(_, src)| peak_heap(src));
+    // sequential: the counting allocator is process-wide
+    let peaks: Vec<_> = all.iter().map(|(_, src)| peak_heap(src)).collect();
     for i in 0..small.len() {
         let name = &small[i].0;
         match (&peaks[i], &peaks[i + small.len()]) {
